@@ -44,12 +44,27 @@ def opFollow (j : Json) : Except String Json := do
   let ws := Batch.follow size orphan overlap ⟨len, lz⟩ len.toNat 1
   return jPairs ws
 
+/-- op "lazy": pulls of a batched render over a counting iterator (`n` = -1: unbounded). -/
+def opLazy (j : Json) : Except String Json := do
+  let start ← getInt j "start"; let end_ ← getInt j "end"; let size ← getInt j "size"
+  let orphan ← getInt j "orphan"; let overlap ← getInt j "overlap"
+  let n ← getInt j "n"; let batched ← getBool j "batched"
+  let unbounded := n < 0
+  let s : Batch.Seq := ⟨if unbounded then 1000000000 else n, true⟩
+  let t := if batched then Batch.renderwbT start end_ size orphan overlap s else Batch.renderwobT s
+  let l := (Batch.LazySt.init (if unbounded then none else some n.toNat)).run t
+  let (st, e, sz) := Batch.window start end_ size orphan s
+  return Json.mkObj [("pulled", Json.num l.pulled), ("hasLen", Json.bool (Batch.hasLen t)),
+    ("sequential", Json.bool (l.log == List.range l.pulled)),
+    ("start", jInt st), ("end", jInt e), ("size", jInt sz)]
+
 def handle (j : Json) : Except String Json := do
   let op ← getStr j "op"
   match op with
   | "batch" => opBatch j
   | "opt" => opOpt j
   | "follow" => opFollow j
+  | "lazy" => opLazy j
   | "ping" => return Json.str "pong"
   | _ => throw s!"unknown op {op}"
 
